@@ -172,4 +172,58 @@ class BindEngine(Engine):
     return {'obs': obs, 'fails': fails[:3], 'nontrivial': nontrivial, 'tags': tags}
 
 
-ENGINES = [BindEngine()]
+class MethodRenameEngine(Engine):
+  """a method registered on its own is bound (and possibly called) under its provisional name; registering its class
+  then renames it to <Class>.<method>.  The store must keep naming a registered configurable (the binding follows the
+  rename), the method must receive it, and config_str / operative_config_str must stay printable.  Implementation only:
+  the Gin-machine model has no provisional method names."""
+  name = 'method-rename'
+  model = False
+
+  def budget(self, tier):
+    return 0
+
+  def corpus(self):
+    return [{'api': a, 'call_before': c, 'scope': s} for a in ('register', 'external') for c in (False, True) for s in ('', 'sc')]
+
+  def gen(self, rng, tier):
+    return self.corpus()[0]
+
+  def impl(self, case):
+    gin = C.fresh_gin()
+    cfg = gin.config
+    fails = []
+    ns = {'gin': gin, '__name__': 'c11mod'}
+    exec('class K:\n  @gin.register\n  def meth(self, x=1):\n    return x\n', ns)  # pylint: disable=exec-used
+    K = ns['K']
+    key = (case['scope'] + '/' if case['scope'] else '') + 'c11mod.meth.x'
+    gin.bind_parameter(key, 7)
+    if case['call_before']:
+      with gin.config_scope(case['scope'] or None):
+        if gin.get_configurable(K.meth)(K()) != 7:
+          fails.append(('provisional-binding-not-injected', ''))
+    if case['api'] == 'register':
+      gin.register(K, module='c11pkg')
+    else:
+      gin.external_configurable(K, module='c11pkg')
+    registry = {k for k, _ in cfg._REGISTRY.items()}  # pylint: disable=protected-access
+    orphans = [k for k in cfg._CONFIG if k[1] not in registry]  # pylint: disable=protected-access
+    if orphans:
+      fails.append(('store-names-unregistered-configurable', 'after the class was registered the store holds %r; registry %r' %
+                    (orphans, sorted(k for k in registry if not k.startswith('gin.')))))
+    try:
+      with gin.config_scope(case['scope'] or None):
+        got = gin.get_configurable(K)().meth()
+      if got != 7:
+        fails.append(('binding-lost-by-rename', 'K.meth.x was bound to 7 before the class was registered; the method received %r' % (got,)))
+    except Exception as e:  # pylint: disable=broad-except
+      fails.append(('method-call-raised', '%s: %s' % (type(e).__name__, str(e)[:120])))
+    for fn in (gin.config_str, gin.operative_config_str):
+      try:
+        fn()
+      except Exception as e:  # pylint: disable=broad-except
+        fails.append(('%s-raised' % fn.__name__, '%s: %s' % (type(e).__name__, str(e)[:120])))
+    return {'obs': T('Done'), 'fails': fails[:3], 'nontrivial': True, 'tags': [case['api']]}
+
+
+ENGINES = [BindEngine(), MethodRenameEngine()]
